@@ -150,7 +150,7 @@ def ensure_facts(repo=REPO, all_targets=False, quiet=False):
             key=lambda p: os.path.getmtime(p),
             reverse=True,
         )
-        for d in ds[4:]:
+        for d in ds[16:]:
             shutil.rmtree(d, ignore_errors=True)
         return out
     finally:
